@@ -60,6 +60,14 @@ register(Contract(
     properties=['C02', 'C06', 'C14'], gen='branch_replace',
 ))
 
+# value mode does not model the inside of regions: the effect of _sync_exiting on the sub-graph of a
+# region predecessor is outside the proved part (hierarchy clause: bounded stand-in, C04/C01 pass)
+register(Contract(
+    qual=SC + ':SCFG._sync_exiting', params={'block': 'block'}, modifies=[], trusted=True, runtime=False,
+    ensures={}, properties=[],
+    note='assumed frame: changes nothing at the level of the caller (it only rewrites exiting blocks inside region sub-graphs)',
+))
+
 IB_PARAMS = {'self': 'SCFG', 'new_name': 'name', 'predecessors': 'list[name]', 'successors': 'list[name]'}
 OB, NB = 'old.self.graph[p]', 'self.graph[p]'
 RR_ARGS = '(%s._jump_targets, %s._jump_targets, new_name, set(successors))' % (OB, NB)
@@ -135,7 +143,7 @@ for _c in ('plain', 'branch', 'distinct', 'sub', 'kept', 'new', 'order', 'pos', 
 
 def insert_block_cuts():
     a = '(old.self.graph[name]._jump_targets, jt, new_name, set(successors))'
-    return {'self.add_block(block.replace_jump_targets(': {
+    return {'new_block = block.replace_jump_targets(': {
         'block': 'block == old.self.graph[name]',
         'sub': 'implies(len(successors) > 0, rr_sub%s)' % a,
         'kept': 'implies(len(successors) > 0, rr_kept%s)' % a,
